@@ -14,7 +14,7 @@ CLAIMED = {
  "C08": ("Coq theorems C08_iff_root, C08_sound, C08_readonly over the file-system model + correspondence: arbitrary subsets/extras, file roots, missing roots, states made by mkdir, strict and non-strict, both families", TECH),
  "C09": ("Coq theorems C09_no_effect, C09_report, C09_same_verdict + correspondence: dry run followed by the real run in the same jail; counts compared with what the real run created", TECH),
  "C10": ("Coq theorems over the pipeline LTS, all scenarios and ALL schedules: C10_blocks, C10_blocks_final (sink output = complete contiguous per-root blocks, each root at most once), C10_mutex, C10_items_unique; sequential layer (model of split and the generate workers sharing one parser, tied by the msplit/mgen stage correspondence through verif hooks): C10_split_concat, C10_schedule_independent, C10_front_end (on every heading-free uniform spelling of a forest, under EVERY interleaving of the workers' parse calls the roots are the forest's tries = what simple mode builds); C10_nil_return_complete / _nothing_in_flight / _no_failure (on a nil return the written text is exactly one complete block per root, nothing in flight, no item failed), C10_error_return_exact, C10_faultless_returns_nil (error iff error); C10_massive_text (both layers composed: on a nil return the text written is the rendering of a permutation of the forest's tries); instances generated from /repo's source by the go/ast inventory scanner and re-checked on every run. Partial: that grow/spread compute each root's rendering in massive mode as in simple mode, and the Go runtime, are covered by the correspondence: massive vs simple results on uniform heading-free documents under perturbed schedules (GOMAXPROCS, hook delays, slow readers/writers/callbacks); K1-K3 are known findings", TECH + "; LTS instance generated by a go/ast translator"),
- "C11": ("Coq theorems over the pipeline LTS for all scenarios and ALL schedules: C11_finite / C11_no_infinite_run (strictly decreasing measure), C11_no_leak, C11_returned_not_stuck, C11_cancelled_progress under safe_params; C11_returns / C11_main_not_stuck (under live_params every maximal run ends with the call returned; C11_live_needed shows the hypothesis is necessary), C11_cancelled_return_is_error; C11_instances_safe, C11_md_entry_points, C11_root_entry_points: the 24 massive entry points of the CURRENT source (generated inventory) satisfy safe_params and live_params, hence every maximal run of each is finite, returns and leaves no goroutine. Partial: scheduler / channels / races are runtime facts, checked by deadline + goroutine dump + -race build under perturbed schedules", TECH + "; LTS instance generated by a go/ast translator"),
+ "C11": ("Coq theorems over the pipeline LTS for all scenarios and ALL schedules: C11_finite / C11_no_infinite_run (strictly decreasing measure), C11_no_leak, C11_returned_not_stuck, C11_cancelled_progress under safe_params; C11_returns / C11_main_not_stuck (under live_params every maximal run ends with the call returned; C11_live_needed shows the hypothesis is necessary), C11_cancelled_return_is_error; C11_nothing_remains_at_return / C11_drain_terminates (the moment the repaired call returns is a quiescent state, and it is reached in every run); C11_instances_safe, C11_md_entry_points, C11_root_entry_points: the 24 massive entry points of the CURRENT source (generated inventory) satisfy safe_params and live_params, hence every maximal run of each is finite, returns and leaves no goroutine. Partial: scheduler / channels / races are runtime facts, checked by deadline + goroutine dump + -race build under perturbed schedules", TECH + "; LTS instance generated by a go/ast translator"),
  "C12": ("Coq theorems C12_no_panic_* (Panic unreachable for every byte string, option set and failing reader; output, walk, wasm, mkdir and verify), C12_blank, C12_scan_failure + correspondence: mutation/raw/long-line stream through every entry point incl. massive variants in isolated processes", TECH),
  "C13": ("Coq theorems C13_function_of_tree, C13_repeat, C13_other_trees, C13_markdown_independent over all histories + correspondence: exhaustive short and random long histories, re-run on freshly built copies and concurrently in goroutines", TECH),
  "C14": ("Coq theorems C14_writer, C14_writer_root, C14_short_budget, C14_reader (reader/writer oracles universally quantified), C14_transient(_root) (a writer rejecting only its k-th call), C14_reader_error_partial + correspondence: reader failure at every sampled offset, writer budgets at every sampled byte, all modes, both families, simple and massive", TECH),
